@@ -7,7 +7,7 @@ for l in open('/verif/seeded/MATRIX.txt'):
     if len(p) >= 3:
         mat.setdefault(p[0], []).append((p[1], p[2], ' '.join(p[3:])))
 out = ["<!-- SEC10-BEGIN -->\n## 10. Seeded changes (from fresh sub-agents) and which checks catch them\n\n"]
-out.append('''Six rounds of fresh sub-agents (rounds 4 to 6 with requests for changes that need long windows, long streams,
+out.append('''Seven rounds of fresh sub-agents (rounds 4 to 7 with requests for changes that need long windows, long streams,
 rare secondary parameters, tiny or huge units, a narrowed counter, f32 only, chains only, clones of clones, never-delivered inner views) were each given only the JSON record of one property and a scratch
 git worktree of /repo (nothing from /verif), and asked for a change that breaks the property while
 compiling and passing the 43 baseline tests, with a demonstration. Every change below was confirmed in a
@@ -66,6 +66,16 @@ What the misses taught:
   C12g (requested for C16, filed under C12: HLNormalizer rewritten around the mid-band; inside C16's three-decade envelope its extra
   error is 1e-13, so it does not break C16, but it breaks C12's bit-exact offset clause) - `C12/affine/f64` for the views that only form
   differences of inputs (HLNormalizer, NET, EFT), with offsets of up to 2^53 grid units so that any sum or midpoint of inputs must round.
+* Round 7 (18 changes aimed at corner situations: ties at the window edge, first values, exact zeros, one parity of N, constant tails,
+  polling patterns; 15 caught at once). The three others:
+  C05e (MyRSI seeds its reference from the raw input before its inner view has answered: invisible over Echo; C01's decomposition
+  caught it) - `chained/Q` clauses for C02, C05 and C06: the view over Sma / Max / Min / GTE / LTE, the batch definition applied to what an
+  exact stand-alone run of that inner view delivers;
+  C16f (NET with `signum`: a flat window gives -1, in every arithmetic) - C16's flat clause compared f64 with the exact run of the same
+  code only; it now also checks the answers the statement names for a flat window (Rsi 100; Vst, Sma, Alma the value; Vsct,
+  WelfordOnline, HLNormalizer, CTI, NET, Roc 0; Ema the value and CyberCycle 0 after 12 N values), which surfaced finding #27;
+  C09f (EFT holds its previous output on a flat window) - C09's fading-memory clause always merged the two streams into a *noisy*
+  tail; a constant-tail variant was added (signature `fading_flat_tail`), which surfaced finding #26.
 * C07b (WelfordOnline's flat-window reset keeps the residue of `mean`) is **not caught**: it needs a spike ~1e16 times the later level,
   and what it then breaks - Vsct's sharp bound, numerically (exact arithmetic unaffected) - is inside the listed finding
   `C07/range/Vsct/f*|range|exact_ok`; inside C16's three-decade envelope its effect (1e-10 of the range) is below the 1e-6 tolerance.
